@@ -34,7 +34,7 @@ def thresholds(tier):
 
 
 def knobs_for(rng):
-  return {"depth": rng.choice([0, 1, 1, 2]), "max_children": rng.choice([1, 2, 3]), "p_ff": 0.3, "p_connect": rng.choice([0.4, 0.7]), "p_connect_reset": rng.choice([0, 0.4]),
+  return {"depth": rng.choice([0, 1, 1, 2]), "max_children": rng.choice([1, 2, 3]), "p_ff": 0.3, "p_connect": rng.choice([0.4, 0.7]), "p_connect_reset": rng.choice([0, 0.4]), "p_const_generic": rng.choice([0, 0.5]),
           "p_split": 0.3, "p_struct": 0.35, "p_list": 0.3, "max_sigs": rng.choice([3, 5]), "expr_depth": 2, "p_nested_field": rng.choice([0, 0.3]), "p_list_field": rng.choice([0, 0.3]),
           "p_const": rng.choice([0, 0.15, 0.3]), "p_struct_init": rng.choice([0, 0.6]), **({"widths": rng.choice([[1, 2], [1, 2, 3, 4], [2], [8]])} if rng.random() < 0.5 else {})}
 
